@@ -143,6 +143,17 @@ theorem all_256_types_table :
       step Generated.C12.tables (sample c) (.recv t [] default) = replied (sample c) t := by
   decide +kernel
 
+/-- **"No handler in the current role" is also a matter of protocol direction.**  In the tree under test no dispatch
+table gives a transport a handler for a message type that only ever travels the other way (a client for
+SERVICE_REQUEST / USERAUTH_REQUEST / …, a server for SERVICE_ACCEPT / USERAUTH_SUCCESS / …): such types take the
+fallback branch and get UNIMPLEMENTED.  (ServiceRequestingTransport registers SERVICE_ACCEPT in its per-instance
+table whatever the role; it is a client-side class, so its server use is left out.  The gssapi-with-mic handler
+is only ever installed by a server.) -/
+theorem no_handler_against_protocol_direction :
+    ∀ c ∈ situations, ¬ (c.1 = true ∧ c.2.1 = true) → ¬ (c.1 = false ∧ c.2.2.1 = AuthH.gssMic) →
+      ∀ t ∈ wrongDirection c.1, handled Generated.C12.tables (sample c) t = false := by
+  decide +kernel
+
 /-- nobody registered a handler for UNIMPLEMENTED: in the tree under test it is never answered -/
 theorem type3_unhandled_everywhere :
     ∀ c ∈ situations, handled Generated.C12.tables (sample c) MSG_UNIMPLEMENTED = false := by
